@@ -554,6 +554,9 @@ theorem run_split (c : UInt8) (l : Bytes) :
 
 /-! ### calcListOffset -/
 
+theorem tabWidth_le' (n : Nat) : tabWidth n ≤ 4 := by unfold tabWidth; omega
+
+
 theorem indentWidthGo_replicate (cur n : Nat) (t : Bytes) (w p : Nat) :
     indentWidthGo cur (List.replicate n 32 ++ t) w p = indentWidthGo cur t (w + n) (p + n) := by
   induction n generalizing w p with
@@ -569,18 +572,18 @@ theorem indentWidthGo_stop (cur : Nat) (c : UInt8) (t : Bytes) (w p : Nat) (h32 
 theorem isSpace_not_indent {c : UInt8} (h : isSpace c = false) : c ≠ 32 ∧ c ≠ 9 := by
   constructor <;> (intro hc; subst hc; simp [isSpace] at h)
 
-theorem calcListOffset_noContent (source : Bytes) : calcListOffset source (-1) = .ok 1 := by
+theorem calcListOffset_noContent (source : Bytes) (lo : Nat) : calcListOffset source (-1) lo = .ok 1 := by
   simp [calcListOffset]
 
-theorem calcListOffset_blank (source : Bytes) (k : Nat) (hk : k ≤ source.length) (hb : isBlank (source.drop k) = true) :
-    calcListOffset source k = .ok 1 := by
+theorem calcListOffset_blank (source : Bytes) (k lo : Nat) (hk : k ≤ source.length) (hb : isBlank (source.drop k) = true) :
+    calcListOffset source k lo = .ok 1 := by
   have hk0 : ¬ ((k : Int) < 0) := by omega
   have hk1 : ¬ k > source.length := by omega
   simp [calcListOffset, hb, hk0, hk1]
 
-theorem calcListOffset_spaces (source : Bytes) (k n : Nat) (c : UInt8) (t : Bytes) (hc : isSpace c = false)
+theorem calcListOffset_spaces (source : Bytes) (k lo n : Nat) (c : UInt8) (t : Bytes) (hc : isSpace c = false)
     (hs : source.drop k = List.replicate n 32 ++ c :: t) :
-    calcListOffset source k = .ok (if n > 4 then 1 else n) := by
+    calcListOffset source k lo = .ok (if n > 4 then 1 else n) := by
   have hk : ¬ k > source.length := by
     intro h
     have : source.drop k = [] := List.drop_eq_nil_of_le (by omega)
@@ -590,6 +593,23 @@ theorem calcListOffset_spaces (source : Bytes) (k n : Nat) (c : UInt8) (t : Byte
   obtain ⟨h32, h9⟩ := isSpace_not_indent hc
   have hk0 : ¬ ((k : Int) < 0) := by omega
   simp [calcListOffset, hk, hk0, hs, hnb, indentWidth, indentWidthGo_replicate, indentWidthGo_stop _ c t _ _ h32 h9]
+
+/-- one tab after the marker, then content: the offset is the tab's width measured from the marker's end column
+    `lo + k` in the line (1–4 columns, never "more than 4") -/
+theorem calcListOffset_tab (source : Bytes) (k lo : Nat) (c : UInt8) (t : Bytes) (hc : isSpace c = false)
+    (hs : source.drop k = 9 :: c :: t) :
+    calcListOffset source k lo = .ok (4 - (lo + k) % 4) := by
+  have hk : ¬ k > source.length := by
+    intro h
+    have : source.drop k = [] := List.drop_eq_nil_of_le (by omega)
+    rw [this] at hs; simp at hs
+  have hnb : isBlank (9 :: c :: t) = false := by simp [isBlank, hc]
+  obtain ⟨h32, h9⟩ := isSpace_not_indent hc
+  have hk0 : ¬ ((k : Int) < 0) := by omega
+  have hle : ¬ (tabWidth (lo + k) > 4) := by have := tabWidth_le' (lo + k); omega
+  have e : ((9 : UInt8) == 32) = false := by decide
+  simp [calcListOffset, hk, hk0, hs, hnb, indentWidth, indentWidthGo, e, h32, h9, hle]
+  rfl
 
 /-! ### closing fence -/
 
@@ -1652,5 +1672,19 @@ theorem atx_content_range (pre s1 text trail : Bytes) (d : UInt8) (n h : Nat)
       = pre.length + n + s1.length + text.length + 1 + h := by omega
   simp only [c1, Bool.false_eq_true, if_false, beq_iff_eq, c2, c3, c4, c5, hcore]
   rfl
+
+/-! ### list content offset: column independence on tab-free lines (3fb40b2 made the column a parameter) -/
+
+theorem tabFree_drop (l : Bytes) (k : Nat) (h : tabFree l) : tabFree (l.drop k) :=
+  fun hm => h (List.mem_of_mem_drop hm)
+
+theorem calcListOffset_offset (source : Bytes) (m4 : Int) (h : tabFree source) (c c' : Nat) :
+    calcListOffset source m4 c = calcListOffset source m4 c' := by
+  simp only [calcListOffset, indentWidth_tabfree _ _ (tabFree_drop source m4.toNat h)]
+
+theorem listItemOpen_offset (line : Bytes) (lastOff : Nat) (h : tabFree line) (c c' : Nat) :
+    listItemOpen line lastOff c = listItemOpen line lastOff c' := by
+  simp only [listItemOpen, calcListOffset_offset line _ h c c',
+    indentPosition_tabfree _ _ _ (tabFree_drop line _ h)]
 
 end GM.Proof.LineRec
